@@ -1,6 +1,6 @@
-CONSTANTS S = 16 Step = 1 MinN = 2 MaxN = 3 Degrees = {1, 2}
+CONSTANTS S = 16 Families <- FamQuick
 CONSTANTS UpperClosed = TRUE FirstClosed = TRUE
-INIT InitGrids
+INIT InitAll
 NEXT Next
 INVARIANT InvC34
 INVARIANT InvReject
